@@ -5,7 +5,7 @@
 
 use crate::flavour::SyncFlavour;
 use crate::gen::{self, GenCfg};
-use crate::locks::{caught, AbortKind, Caught, Policy, PolicyKind, Sched, TaskObs};
+use crate::locks::{caught, AbortKind, Caught, Policy, PolicyKind, Sched, Solo, TaskObs};
 use crate::model::{MEdge, Model, Obs, Op, Prov};
 use crate::rng::{self, Rng};
 use crate::runner::{Engine, Stats, Tier, Violation};
@@ -116,6 +116,35 @@ pub fn serialisable(m0: &Model, tasks: &[Vec<(Op, Obs)>], real: &[Lists], budget
     let mut pos = vec![0; tasks.len()];
     let mut seen = BTreeSet::new();
     go(m0, &mut pos, tasks, real, &mut seen, budget)
+}
+
+/// the calls of task `t` on a fresh copy of the scenario's graph, nothing else running
+fn run_alone<F: SyncFlavour>(sc: &ConcSc, t: usize) -> Vec<Obs>
+where
+    F::Node: Send + Sync,
+    F::Graph: Send + Sync,
+{
+    hashseam::set_seed(sc.hash_seed);
+    let world = World::<F>::new(&sc.prios, sc.shared_container);
+    world.seed_edges(&sc.initial);
+    hashseam::set_seed(rng::mix(sc.hash_seed ^ (t as u64 + 1)));
+    let solo = Solo::new();
+    solo.install();
+    let mut obs = Vec::new();
+    for op in &sc.tasks[t] {
+        let o = world.exec(op);
+        let stop = matches!(o, Obs::Abort(_));
+        obs.push(o);
+        if stop {
+            break;
+        }
+    }
+    Solo::uninstall();
+    if let Some(h) = solo.harness_error() {
+        eprintln!("HARNESS-ERROR: {h}");
+        std::process::exit(2);
+    }
+    obs
 }
 
 fn run_once<F: SyncFlavour>(sc: &ConcSc, sched_rng: Rng, forced: Option<Vec<u32>>, only_inv: bool, stats: &mut Stats) -> RunOut
@@ -272,6 +301,105 @@ where
     // reads of a quantity that no other task can change must return its sequential value
     if let Some(v) = read_consistency(sc, &m0, &results, stats) {
         return ret(Some(Violation::new(v.class, format!("{}; schedule: {}", v.detail, detail_events()))));
+    }
+    // a task that no other task can affect (the others only read) must observe exactly what it
+    // observes when it runs alone: traversals, orderings, components and exports included
+    for t in 0..nt {
+        let others_mutate = sc.tasks.iter().enumerate().any(|(t2, s2)| t2 != t && s2.iter().any(|o| o.is_mutation()));
+        if others_mutate || sc.tasks[t].is_empty() || results[t].len() != sc.tasks[t].len() {
+            continue;
+        }
+        stats.inc("tasks_compared_with_their_run_alone");
+        let alone = run_alone::<F>(sc, t);
+        if let Some(i) = (0..alone.len()).find(|i| alone[*i] != results[t][*i]) {
+            return ret(Some(Violation::new(
+                format!("read-inconsistent:{}", sc.tasks[t][i].name()),
+                format!(
+                    "t{t} call #{i} {:?} returned {:?} next to tasks that only read, and {:?} when the same calls run alone; schedule: {}",
+                    sc.tasks[t][i],
+                    results[t][i],
+                    alone[i],
+                    detail_events()
+                ),
+            )));
+        }
+    }
+    // a directed traversal reads one side's lists of the nodes it can reach and nothing else:
+    // where no call of another task can change those lists (it may well keep their locks busy,
+    // writing the other side), the traversal must return what it returns alone
+    if F::DIRECTED {
+        let mut union: Vec<(usize, usize)> = sc.initial.iter().map(|(u, v, _)| (*u, *v)).collect();
+        for o in sc.tasks.iter().flatten() {
+            if let Op::Connect { u, v, .. } | Op::TryConnect { u, v, .. } = o {
+                union.push((*u, *v));
+            }
+        }
+        for t in 0..nt {
+            let others_mutate = sc.tasks.iter().enumerate().any(|(t2, s2)| t2 != t && s2.iter().any(|o| o.is_mutation()));
+            if !others_mutate || results[t].len() != sc.tasks[t].len() {
+                continue; // (no writer at all: compared as a whole above)
+            }
+            let mut alone: Option<Vec<Obs>> = None;
+            for (i, op) in sc.tasks[t].iter().enumerate() {
+                let Op::Search { root, spec } = op else { continue };
+                if spec.transpose && matches!(spec.kind, crate::model::SKind::PfsMin | crate::model::SKind::PfsMax) {
+                    // which lists a transposed priority-first search walks is a question about
+                    // the traversal itself (C08), not about concurrency: not assumed here
+                    continue;
+                }
+                let fwd = !spec.transpose;
+                let mut reach = vec![false; sc.prios.len()];
+                if *root >= reach.len() {
+                    continue;
+                }
+                reach[*root] = true;
+                union.retain(|(a, b)| *a < reach.len() && *b < reach.len());
+                loop {
+                    let mut grew = false;
+                    for (a, b) in &union {
+                        let (from, to) = if fwd { (*a, *b) } else { (*b, *a) };
+                        if reach[from] && !reach[to] {
+                            reach[to] = true;
+                            grew = true;
+                        }
+                    }
+                    if !grew {
+                        break;
+                    }
+                }
+                let reached = |x: usize| reach.get(x).copied().unwrap_or(false);
+                let interferes = sc.tasks.iter().enumerate().any(|(t2, s2)| {
+                    t2 != t
+                        && s2.iter().any(|o| match o {
+                            Op::Connect { u, v, .. } | Op::TryConnect { u, v, .. } => reached(if fwd { *u } else { *v }),
+                            Op::Disconnect { u, k, .. } => reached(if fwd { *u } else { *k }),
+                            Op::Isolate { u, .. } => reached(*u),
+                            _ => false,
+                        })
+                });
+                if interferes {
+                    continue;
+                }
+                let alone = alone.get_or_insert_with(|| run_alone::<F>(sc, t));
+                // the task's own earlier changes must have gone the same way
+                let same_past = (0..i).all(|j| !sc.tasks[t][j].is_mutation() || alone.get(j) == results[t].get(j));
+                if !same_past || alone.len() <= i {
+                    continue;
+                }
+                stats.inc("traversals_no_other_task_can_affect_checked");
+                if alone[i] != results[t][i] {
+                    return ret(Some(Violation::new(
+                        "read-inconsistent:search",
+                        format!(
+                            "t{t} call #{i} {op:?} returned {:?}, and {:?} when the same calls run alone, although no call of another task can change a list it reads; schedule: {}",
+                            results[t][i],
+                            alone[i],
+                            detail_events()
+                        ),
+                    )));
+                }
+            }
+        }
     }
     // serialisability of the mutating calls
     let real: Vec<Lists> = (0..world.n()).map(|u| world.lists(u)).collect();
@@ -632,7 +760,7 @@ impl Engine for Conc {
         let prios: Vec<u32> = (0..n).map(|_| rng.below(3) as u32).collect();
         let mut m = Model::new(directed, n);
         let mut next_edge = 100;
-        let initial = gen::gen_initial(rng, &mut m, &mut next_edge, if small { 3 } else { 6 });
+        let mut initial = gen::gen_initial(rng, &mut m, &mut next_edge, if small { 3 } else { 6 });
         let mut cfg = GenCfg {
             hub: None,
             provs: vec![Prov::Own, Prov::Clone],
@@ -685,7 +813,39 @@ impl Engine for Conc {
                 tasks.push(w);
             }
         }
-        for _ in 0..(if template { 0 } else { nt }) {
+        // traversal-versus-writers template (directed): node x is a pure source (or, for
+        // transposed traversals, a pure sink), writers only add and remove x's edges, so they keep
+        // the locks of the nodes a traversal walks through busy without changing what it reads
+        let template2 = directed && !template && n >= 3 && rng.chance(1, 8);
+        if template2 {
+            let x = n - 1;
+            let transposed = rng.chance(1, 3);
+            initial.retain(|(u, v, _)| if transposed { *u != x } else { *v != x });
+            m.edges.retain(|e| if transposed { e.u != x } else { e.v != x });
+            let mut reads = Vec::new();
+            for _ in 0..rng.range(1, 2) {
+                let mut spec = gen::gen_search_spec(rng, &m, true);
+                spec.transpose = transposed;
+                reads.push(Op::Search { root: rng.below(n - 1), spec });
+            }
+            tasks.push(reads);
+            for _ in 1..nt {
+                let mut w = Vec::new();
+                for _ in 0..rng.range(1, 3) {
+                    let u = rng.below(n - 1);
+                    next_edge += 1;
+                    let (a, b) = if transposed { (u, x) } else { (x, u) };
+                    w.push(match rng.below(7) {
+                        0 | 1 => Op::Connect { u: a, v: b, e: next_edge, h: Prov::Own },
+                        2 | 3 => Op::TryConnect { u: a, v: b, e: next_edge, h: Prov::Own },
+                        4 | 5 => Op::Disconnect { u: a, k: b, h: Prov::Own },
+                        _ => Op::Isolate { u: x, h: Prov::Own },
+                    });
+                }
+                tasks.push(w);
+            }
+        }
+        for _ in 0..(if template || template2 { 0 } else { nt }) {
             let k = rng.range(1, max_ops);
             let mut script = Vec::new();
             for _ in 0..k {
@@ -727,7 +887,7 @@ impl Engine for Conc {
             policy: Policy {
                 kind,
                 writer_pref: rng.chance(2, 3),
-                preempt_in_cs: template || rng.chance(1, 3),
+                preempt_in_cs: template || template2 || rng.chance(1, 3),
                 preempt_at_release: rng.chance(1, 4),
             },
             sched_seed: rng.next_u64(),
